@@ -216,6 +216,15 @@ func (t *tr) assignStmt(s *ast.AssignStmt, rest []ast.Stmt, k func() string) (st
 				t.tupleAssign(s, r, define)
 				return "", false
 			}
+			allBlank := true
+			for _, l := range s.Lhs {
+				if id, ok := l.(*ast.Ident); !ok || id.Name != "_" {
+					allBlank = false
+				}
+			}
+			if allBlank { // `_, _ = f(..)`: a call whose results are discarded, like the bare call
+				return "", false
+			}
 			if len(s.Lhs) != len(r.vals) {
 				t.fail("assignment count mismatch")
 			}
